@@ -312,7 +312,7 @@ def run(ctx):
                          "(3 / 3.0, 2^53 + 2 / its float); points outside a bound by 0.85 .. 1.2 tolerances and "
                          "PX_PER_INCH changed beforehand among the call forms")
     return {"part": part, "coverage": coverage,
-            "assumptions": ["dyadic alphabet: bound +- tolerance is exact in floating point"]}
+            "assumptions": ["dyadic alphabet: bound +- tolerance is exact in floating point, except in the family of int bounds beyond 2^53 with float tolerances (known finding K2)"]}
 
 
 def replay(case):
